@@ -51,7 +51,7 @@ template <typename _Derived>
 void
 identity(LieGroupBase<_Derived>& lie_group)
 {
-  lie_group.identity();
+  lie_group.setIdentity();
 }
 
 template <typename _LieGroup>
@@ -64,7 +64,7 @@ template <typename _Derived>
 void
 zero(TangentBase<_Derived>& tangent)
 {
-  tangent.zero();
+  tangent.setZero();
 }
 
 template <typename _Tangent>
@@ -77,7 +77,7 @@ template <typename _Derived>
 void
 random(LieGroupBase<_Derived>& lie_group)
 {
-  lie_group.random();
+  lie_group.setRandom();
 }
 
 template <typename _Type>
@@ -90,7 +90,7 @@ template <typename _Derived>
 void
 random(TangentBase<_Derived>& tangent)
 {
-  tangent.random();
+  tangent.setRandom();
 }
 
 template <typename _Derived>
